@@ -145,4 +145,40 @@ def use_vars(n: int) -> int:
 # the text ends inside an indented block, the last line holds only indentation (no final line break)
 OPENBLOCK = 'def open_block() -> None:\n\tpass\n\t'
 
-ALL = {'shape_vars': VARS, 'shape_uses': USES, 'shape_openblock': OPENBLOCK, 'shape_generic': GENERIC, 'shape_pairs': PAIRS, 'shape_flow': FLOW, 'shape_doconly': DOCONLY, 'shape_docfirst': DOCFIRST}
+LITERALS = '''from typing import Literal, TypeAlias
+
+Mode: TypeAlias = Literal['r', 'w']
+
+def lit_a(m: Literal['a']) -> Literal[1]:
+\treturn 1
+
+def lit_b(k: Literal[1], m: Mode) -> int:
+\tv: Literal['x'] = 'x'
+\treturn k
+
+class Cfg:
+\tkind: Literal['fast']
+\tlevel: Literal[3]
+
+\tdef __init__(self) -> None:
+\t\tself.kind = 'fast'
+\t\tself.level = 3
+
+def nums() -> int:
+\thx = 0x1F
+\tbig = 1000
+\tfl = 1e3
+\treturn hx + big
+'''
+
+# entries that every candidate node class rejects (binary / octal / imaginary literals): the tree is well formed, the
+# resolution of such a path fails - and has to fail the same way whatever was asked before (C10 only: the module does not load)
+NUMS = '''def masks() -> int:
+\tmask = 0b1010
+\tperm = 0o17
+\tz = 1j
+\treturn mask
+'''
+TREES_ONLY = {'shape_nums': NUMS}
+
+ALL = {'shape_literals': LITERALS, 'shape_vars': VARS, 'shape_uses': USES, 'shape_openblock': OPENBLOCK, 'shape_generic': GENERIC, 'shape_pairs': PAIRS, 'shape_flow': FLOW, 'shape_doconly': DOCONLY, 'shape_docfirst': DOCFIRST}
